@@ -8,19 +8,20 @@ from .. import q
 
 TITLE = 'idle handshake window / U0 keepalive and recovery timers'
 FLOOR = 16
-DECIDES = ('Both modules are small enough to be decided on their extracted transition relation itself: the cone of each '
-           'observed output (registers with their declared widths, truncation on assignment, last assignment wins) is '
-           'compiled into a step function and explored together with a reference monitor over EVERY input history '
-           '(formulation independent -- no expression text is compared). '
-           '(a) IdleHandshakeHandler, received words drawn from {logical idle, every single data bit set, every single '
-           'ctrl bit set} (quick: a subset in the exhaustive product, all bits in directed runs), enable free in every '
-           'cycle after the first: whenever idle_handshake_complete is high, (a1) two consecutive all-zero data+ctrl '
-           'words (= 8 symbols, 4 per word: data width = 8 x ctrl width) have been received ending inside the current '
-           'uninterrupted enable period, and (a2) enable has been high in at least 4 complete previous cycles (16 symbols '
-           'sent) of that period -- so state left from an earlier period cannot complete a new one; (a3) every data and '
-           'ctrl bit takes part in the idle comparison (a word with a single bit set, alternating with idle words, never '
-           'completes); (a4) with enable held the handshake does complete, both when idle is received from the start and when it '
-           'only arrives after the 16 symbols were sent. '
+DECIDES = ('Both modules are decided on their extracted transition relation by exhaustive fixpoints (no stimulus runs, no '
+           'expression text compared): the cone of each observed output (registers with their declared widths, '
+           'truncation on assignment, last assignment wins) is compiled into a one-cycle step function; every reachable '
+           'state is expanded under every input vector. '
+           '(a) IdleHandshakeHandler x reference monitor (enable run length, idle streak, window seen), word alphabet '
+           '{logical idle, all ones, each of the 32+4 single-bit words}, enable free in every cycle, initial states = '
+           'successors of reset with enable low: whenever idle_handshake_complete is high, (a1) two consecutive all-zero '
+           'data+ctrl words (= 8 symbols, 4 per word: data width = 8 x ctrl width) have been received ending inside the '
+           'current uninterrupted enable period, and (a2) enable has been high in at least 4 complete previous cycles (16 '
+           'symbols sent) of that period -- so state left from an earlier period cannot complete a new one; (a3) the '
+           'same product over each two-word alphabet {idle, single-bit word} is violation free, i.e. every data and ctrl '
+           'bit takes part in the idle classification; (a4) on the explored register-state graph, the subgraph of '
+           '"enable high, idle received" edges has no completion-free cycle: from EVERY reachable state the handshake '
+           'completes (idle from the start as well as idle arriving late). '
            '(b) LinkMaintenanceTimers for several ss_clock_frequency values (1 MHz; 1.6 MHz and 1.024 MHz where the '
            'keepalive / recovery counter overflows exactly at its timeout; the 125 MHz default; thorough: five more up to '
            '250 MHz), exact reference cycle counts from rational arithmetic, every reachable counter value x every input '
@@ -33,10 +34,10 @@ DECIDES = ('Both modules are small enough to be decided on their extracted trans
            'enabled, from every reachable counter value including after counter roll-over. ')
 NOT_DECIDED = ('whether sink.valid qualifies the received words (IdleHandshakeHandler does not read it: words are taken '
                'as received every cycle); the handshake starting in the very first cycle after reset (the word registers '
-               'reset to the idle pattern); a lower bound on the keepalive interval (the property only bounds it from '
-               'above; the measured interval is reported as a note); clock frequencies for which timeout x frequency is '
-               'not an integer (int() truncation); timers with more than 18 register bits (only reachable by changing '
-               'the timeout constants) are decided by directed histories instead of exhaustively.')
+               'reset to the idle pattern); received words other than idle / all ones / single-bit words; a lower bound on '
+               'the keepalive interval (the property only bounds it from above; the implemented interval is reported as a '
+               'note); clock frequencies for which timeout x frequency is not an integer (int() truncation); a timer cone '
+               'with more than 18 register bits (only reachable by changing the timeout constants) is an ANALYSIS-ERROR.')
 
 CLS_I, MOD_I = 'IdleHandshakeHandler', 'usb3.link.idle'
 CLS_T, MOD_T = 'LinkMaintenanceTimers', 'usb3.link.timers'
@@ -317,62 +318,61 @@ def check_idle(ctx):
     need_words = -(-IDLE_SYMBOLS_REQUIRED // spw)
     need_cycles = -(-SENT_SYMBOLS_REQUIRED // spw)
 
-    # received word kinds: (data, ctrl, name)
-    all_kinds = [(0, 0, 'idle')] + [(1 << i, 0, 'data[%d]' % i) for i in range(wd)] + [(0, 1 << j, 'ctrl[%d]' % j) for j in range(wc)]
-    if ctx.tier == 'thorough':
-        kinds = all_kinds
-    else:
-        pick = {'idle', 'data[0]', 'data[7]', 'data[8]', 'data[%d]' % (wd - 1), 'ctrl[0]', 'ctrl[%d]' % (wc - 1)}
-        kinds = [k for k in all_kinds if k[2] in pick]
+    # received word kinds: (data, ctrl, name): logical idle, every single-bit deviation from it, and all ones
+    IDLE = (0, 0, 'idle')
+    ONES = ((1 << wd) - 1, (1 << wc) - 1, 'all-ones')
+    singles = [(1 << i, 0, 'data[%d]' % i) for i in range(wd)] + [(0, 1 << j, 'ctrl[%d]' % j) for j in range(wc)]
     frees = vectors(free)
-
-    def mkvecs(kinds_):
-        vs = []
-        for en in (0, 1):
-            for kd in kinds_:
-                for fv in frees:
-                    v = dict(fv)
-                    v.update({EN: en, DATA: kd[0], CTRL: kd[1]})
-                    vs.append((v, kd, en))
-        return vs
+    step = net.step
+    K_IDLE, K_SENT = 'idle', 'sent'
 
     def vname(entry):
         v, kd, en = entry
         extra = ''.join(',%s=%d' % (k.split('.')[-1], x) for k, x in sorted(v.items()) if k in free)
         return 'en=%d,%s%s' % (en, kd[2], extra)
 
-    vs = mkvecs(kinds)
-    tuples = [tuple(v[n] for n in net.inputs) for v, _, _ in vs]
-    is_idle = [kd[0] == 0 and kd[1] == 0 for _, kd, _ in vs]
-    ens = [en for _, _, en in vs]
-    step = net.step
-    K_IDLE, K_SENT = 'idle', 'sent'
+    def product(kinds):
+        """Exhaustive fixpoint of (design registers x reference monitor) over every history of the word alphabet `kinds`,
+        enable (and any other 1-bit input) free in every cycle."""
+        vs = []
+        for en in (0, 1):
+            for kd in kinds:
+                for fv in frees:
+                    v = dict(fv)
+                    v.update({EN: en, DATA: kd[0], CTRL: kd[1]})
+                    vs.append((v, kd, en))
+        tuples = [tuple(v[n] for n in net.inputs) for v, _, _ in vs]
+        is_idle = [kd[0] == 0 and kd[1] == 0 for _, kd, _ in vs]
+        ens = [en for _, _, en in vs]
 
-    def trans(s, vi):
-        d, run, got, streak = s
-        nd, outs = step(d, tuples[vi])
-        nstreak = min(streak + 1, need_words) if is_idle[vi] else 0
-        hit = nstreak >= need_words
-        viol = ()
-        if outs[0]:
-            if not (got or hit):
-                viol += (K_IDLE,)
-            if run < need_cycles:
-                viol += (K_SENT,)
-        if ens[vi]:
-            return (nd, min(run + 1, need_cycles), got or hit, nstreak), viol
-        return (nd, 0, False, nstreak), viol
+        def trans(s, vi):
+            d, run, got, streak = s
+            nd, outs = step(d, tuples[vi])
+            nstreak = min(streak + 1, need_words) if is_idle[vi] else 0
+            hit = nstreak >= need_words
+            viol = ()
+            if outs[0]:
+                if not (got or hit):
+                    viol += (K_IDLE,)
+                if run < need_cycles:
+                    viol += (K_SENT,)
+            if ens[vi]:
+                return (nd, min(run + 1, need_cycles), got or hit, nstreak), viol
+            return (nd, 0, False, nstreak), viol
+        # the handshake is not started in the first cycle after reset: the abstract initial states are the successors of
+        # the reset state under every input vector with enable low
+        starts = []
+        for vi, (v, kd, en) in enumerate(vs):
+            if en == 0:
+                nd, _ = step(net.reset(), tuples[vi])
+                starts.append((nd, 0, False, 1 if is_idle[vi] else 0))
+        parent, bad, trunc = explore(ctx, starts, len(vs), trans, CLS_I)
+        return parent, bad, trunc, vs, tuples
 
-    # the handshake is not started in the first cycle after reset: one warm-up cycle with enable low
-    starts = []
-    for vi, (v, kd, en) in enumerate(vs):
-        if en == 0:
-            nd, _ = step(net.reset(), tuples[vi])
-            starts.append((nd, 0, False, 1 if is_idle[vi] else 0))
-    parent, bad, trunc = explore(ctx, starts, len(vs), trans, CLS_I)
+    parent, bad, trunc, vs, tuples = product([IDLE, ONES] + singles)
     note = ' (exploration truncated)' if trunc else ''
 
-    def witness(key):
+    def witness(key, bad=bad, parent=parent, vs=vs):
         if key not in bad:
             return ''
         s, vi = bad[key]
@@ -380,85 +380,80 @@ def check_idle(ctx):
             rle(history(parent, s, vi), lambda i: vname(vs[i])), [q.base(r) for r in net.regs])
     ctx.ob('C44.idle-window', CLS_I + '.idle_handshake_complete.eight-idle-symbols', K_IDLE not in bad, oloc,
            'idle_handshake_complete requires %d consecutive logical-idle words (%d symbols) received, the last of them inside '
-           'the current enable period; %d product states explored%s%s' % (need_words, need_words * spw, len(parent), note, witness(K_IDLE)))
+           'the current enable period; %d product states x %d input vectors explored%s%s' % (
+               need_words, need_words * spw, len(parent), len(vs), note, witness(K_IDLE)))
     ctx.ob('C44.sent-sixteen', CLS_I + '.idle_handshake_complete.sixteen-symbols-sent', K_SENT not in bad, oloc,
            'idle_handshake_complete requires enable during the %d preceding cycles (%d symbols sent) of the current enable '
            'period%s%s' % (need_cycles, need_cycles * spw, note, witness(K_SENT)))
 
-    # (a3) every bit of the received word takes part: word k alternating with idle never completes
-    fv0 = {s: (1 if s == VALID else 0) for s in free}
-
-    def vec(en, kd):
-        v = dict(fv0)
-        v.update({EN: en, DATA: kd[0], CTRL: kd[1]})
-        return tuple(v[n] for n in net.inputs)
-    def alternating(kd):
-        d, _ = step(net.reset(), vec(0, kd))
-        fired = False
-        for t in range(4 * need_cycles + 8):
-            d, outs = step(d, vec(1, kd if t % 2 else all_kinds[0]))
-            fired = fired or bool(outs[0])
-        return fired
+    # (a3) every bit of the received word takes part in the idle classification: the same exhaustive product over the
+    # two-word alphabet {idle, word with one bit set}, for every bit.  The all-ones word is the baseline: if even
+    # {idle, all ones} violates the window, (a1) reports it and no particular bit is to blame.
     ignored = {'data': [], 'ctrl': []}
-    # a word with every bit set is the baseline: if even that completes, the window obligation (a1) reports it and no
-    # particular bit is to blame
-    if not alternating(((1 << wd) - 1, (1 << wc) - 1, 'all ones')):
-        for kd in all_kinds[1:]:
-            if alternating(kd):
+    if K_IDLE not in product([IDLE, ONES])[1]:
+        for kd in singles:
+            if K_IDLE in product([IDLE, kd])[1]:
                 ignored['data' if kd[1] == 0 else 'ctrl'].append(kd[2])
     for fld, sig in (('data', DATA), ('ctrl', CTRL)):
         ctx.ob('C44.idle-compare-bits', '%s.idle-compare.%s-bits' % (CLS_I, fld), not ignored[fld], oloc,
-               'every bit of %s must be zero in a logical-idle word: words with only %s set, alternating with idle words, '
-               'complete the handshake' % (sig, ignored[fld][:8]))
-    # (a4) the handshake can complete: idle from the start, and idle arriving only after the 16 symbols were sent
-    ones = ((1 << wd) - 1, (1 << wc) - 1, 'all ones')
-    horizon = 8 * need_cycles + 16
-    for role, lead in (('idle-from-start', 0), ('idle-arrives-late', 3 * need_cycles + 1)):
-        d, _ = step(net.reset(), vec(0, ones if lead else all_kinds[0]))
-        at = None
-        for t in range(lead + horizon):
-            d, outs = step(d, vec(1, ones if t < lead else all_kinds[0]))
-            if outs[0] and at is None:
-                at = t
-        ok = at is not None and at >= lead
-        ctx.ob('C44.handshake-completes', '%s.idle_handshake_complete.%s' % (CLS_I, role), ok, oloc,
-               'with enable held, %d non-idle word(s) and then logical idle in every cycle, the handshake must complete '
-               '(observed: %s)' % (lead, 'never within %d cycles' % (lead + horizon) if at is None else 'in enable cycle %d' % at))
-        if at is not None and not lead:
-            ctx.note('IdleHandshakeHandler completes in enable cycle %d (counting from 0) under continuous idle; sink.valid is %s' % (
-                at, 'read' if VALID in net.inputs else 'not read by the handshake logic (not decided)'))
+               'every bit of %s must be zero in a logical-idle word: over all histories of {idle, single-bit word} the '
+               'handshake completes without two consecutive idle words for the words %s' % (sig, ignored[fld][:8]))
+
+    # (a4) progress, on the explored graph: in the subgraph of edges "enable high, logical idle received" (sink.valid
+    # high if it is read) every path from EVERY reachable register state reaches an edge with idle_handshake_complete
+    # high -- i.e. that subgraph has no complete-free cycle.  Covers idle from the start and idle arriving late.
+    good = [i for i, (v, kd, en) in enumerate(vs) if en == 1 and kd is IDLE and v.get(VALID, 1) == 1]
+    ctx.need(good, 'an input vector with enable high and a logical-idle word')
+    states = {st[0] for st in parent}
+    succ = {}
+    for d in states:
+        succ[d] = []
+        for vi in good:
+            nd, outs = step(d, tuples[vi])
+            succ[d].append((nd, 1 if outs[0] else 0))
+            ctx.need(nd in states, 'explored register states closed under the input alphabet')
+    NEVER = len(states) + 1
+    dist = {}
+    for s0 in states:
+        if s0 in dist:
+            continue
+        stack, onpath, best = [(s0, 0)], {s0}, {s0: 0}
+        while stack:
+            d, k = stack[-1]
+            if k < len(succ[d]):
+                stack[-1] = (d, k + 1)
+                n, done = succ[d][k]
+                if done:
+                    continue
+                if n in dist:
+                    best[d] = max(best[d], min(NEVER, 1 + dist[n]))
+                elif n in onpath:
+                    best[d] = NEVER
+                else:
+                    onpath.add(n)
+                    best[n] = 0
+                    stack.append((n, 0))
+            else:
+                stack.pop()
+                onpath.discard(d)
+                dist[d] = best.pop(d)
+                if stack:
+                    pd = stack[-1][0]
+                    best[pd] = max(best[pd], min(NEVER, 1 + dist[d]))
+    stuck = sorted(d for d in states if dist[d] >= NEVER)
+    wit = ''
+    if stuck:
+        prod = min((st for st in parent if st[0] == stuck[0]), key=lambda st: len(history(parent, st, 0)))
+        wit = ' -- violated: from the register state %s, reached by the history [%s], it is never raised' % (
+            dict(zip([q.base(r) for r in net.regs], stuck[0])), rle(history(parent, prod, 0)[:-1], lambda i: vname(vs[i])) or 'start')
+    worst = max(dist.values()) if dist else 0
+    ctx.ob('C44.handshake-completes', CLS_I + '.idle_handshake_complete.from-every-state', not stuck, oloc,
+           'with enable held and logical idle received, idle_handshake_complete must be reached from every one of the %d '
+           'reachable register states (longest wait: %s cycles)%s' % (len(states), worst if not stuck else 'unbounded', wit))
+    ctx.note('IdleHandshakeHandler: sink.valid is %s' % ('read' if VALID in net.inputs else 'not read by the handshake logic (not decided)'))
 
 
 # ------------------------------------------------------------------------------------------------ (b) U0 timers
-def timer_trans(net, tuples, quiet, n_lo, n_hi, once):
-    """Product transition of a timer cone with the elapsed-time monitor (used for directed histories).
-    state = (design registers, age = quiet cycles immediately before this one (capped), m = quiet cycles since the last
-    restart / strobe without a strobe, or DONE)."""
-    step = net.step
-    cap = max(n_lo, 1)
-
-    def trans(s, vi):
-        d, age, m = s
-        nd, outs = step(d, tuples[vi])
-        viol = ()
-        if outs[0]:
-            if age < n_lo - 1:
-                viol = ('early',)
-            nm = DONE if once else 0
-        elif quiet[vi]:
-            if m == DONE:
-                nm = DONE
-            else:
-                nm = m + 1
-                if nm > n_hi:
-                    viol = ('late',)
-                    nm = DONE
-        else:
-            nm = 0
-        return (nd, (age + 1 if age < cap else cap) if quiet[vi] else 0, nm), viol
-    return trans
-
-
 def analyse_timer(ctx, net, tuples, quiet, n_lo, n_hi, once, vname, what):
     """Decide the two monitor properties on the graph of reachable register states (no product blow-up):
       early: the strobe is raised in a cycle preceded by fewer than n_lo - 1 quiet cycles  <=>  some reachable state with
@@ -467,7 +462,7 @@ def analyse_timer(ctx, net, tuples, quiet, n_lo, n_hi, once, vname, what):
       late:  more than n_hi consecutive quiet cycles without a strobe after a restart (non-quiet cycle, reset, and -- unless
              `once` -- a strobe)  <=>  the longest strobe-free quiet path from such a restart state exceeds n_hi (a cycle
              counts as infinite).
-    Returns ({'early': text, 'late': text} for the violated ones, number of register states)."""
+    Returns ({'early': text, 'late': text} for the violated ones, number of register states, quiet wait from reset)."""
     step = net.step
     nvec = len(tuples)
     qv = [i for i in range(nvec) if quiet[i]]
@@ -586,31 +581,9 @@ def analyse_timer(ctx, net, tuples, quiet, n_lo, n_hi, once, vname, what):
         bad['late'] = ('%s after the history [%s] followed by quiet cycles [%s%s]' % (
             'never raised (the registers cycle without it)' if loops else 'not raised within %d quiet cycles' % n_hi,
             rle(into(m_src, s), vname) or 'reset', rle(tail, vname), '; ...' if loops else ''))
-    return bad, len(parent)
-
-
-def directed_timer(ctx, net, vs, tuples, quiet, n_lo, n_hi, once, vname):
-    """Fallback for very large counters: directed histories (reset / every non-quiet vector at two phases, then quiet)."""
-    ctx.need(any(quiet), 'a quiet input vector')
-    qv = quiet.index(True)
-    trans = timer_trans(net, tuples, quiet, n_lo, n_hi, once)
-    scen = [[(qv, n_hi + 2)]]
-    for vi in range(len(vs)):
-        if not quiet[vi]:
-            scen.append([(qv, max(n_lo - 2, 1)), (vi, 1), (qv, n_hi + 2)])
-            scen.append([(qv, 3), (vi, 2), (qv, n_hi + 2)])
-    bad = {}
-    for seq in scen:
-        s, t = (net.reset(), 0, 0), 0
-        for vi, cnt in seq:
-            for _ in range(cnt):
-                s, viol = trans(s, vi)
-                for k in viol:
-                    bad.setdefault(k, 'in cycle %d of the history [%s]' % (t, '; '.join('%dx %s' % (c, vname(x)) for x, c in seq)))
-                t += 1
-            if len(bad) == 2:
-                break
-    return bad, len(scen)
+    # longest quiet wait from the reset state until the strobe (graph distance, for the evidence notes)
+    wait = dist[r0] + 1 if dist.get(r0, INF) <= n_hi else None
+    return bad, len(parent), wait
 
 
 def fmt_f(f):
@@ -641,22 +614,11 @@ def check_timers(ctx, f):
         def vname(i):
             on = [k.split('.')[-1] for k, x in sorted(vs[i].items()) if x]
             return '+'.join(on) if on else 'nothing'
-        if net.state_bits <= MAX_EXHAUSTIVE_BITS:
-            bad, n = analyse_timer(ctx, net, tuples, quiet, n_lo, n_hi, once, vname, '%s %s' % (tag, out))
-            how = 'all %d reachable states of %s x %d input vectors' % (n, [q.base(r) for r in net.regs], len(vs))
-        else:
-            bad, n = directed_timer(ctx, net, vs, tuples, quiet, n_lo, n_hi, once, vname)
-            how = '%d directed histories only: %d register bits in %s' % (n, net.state_bits, [q.base(r) for r in net.regs])
-        # informational: the interval actually implemented, from reset under the (first) quiet vector
-        first = None
-        if any(quiet):
-            d, qi = net.reset(), tuples[quiet.index(True)]
-            for t in range(1, min(n_hi + 2, 3000000) + 1):
-                d, outs = net.step(d, qi)
-                if outs[0]:
-                    first = t
-                    break
-        return net, bad, how, first
+        ctx.need(net.state_bits <= MAX_EXHAUSTIVE_BITS, 'timer cone of %s small enough to analyse every register state '
+                 '(%d register bits in %s, limit %d)' % (out, net.state_bits, [q.base(r) for r in net.regs], MAX_EXHAUSTIVE_BITS))
+        bad, n, wait = analyse_timer(ctx, net, tuples, quiet, n_lo, n_hi, once, vname, '%s %s' % (tag, out))
+        how = 'all %d reachable states of %s x %d input vectors' % (n, [q.base(r) for r in net.regs], len(vs))
+        return net, bad, how, wait
 
     # ---- keepalive: upper bound only
     net, bad, how, first = decide(KEEP, (EN, TX), lambda v: v[EN] and not v[TX], 0, n_keep, False)
